@@ -20,6 +20,11 @@ CARRIER_SIGNAL = {"GenSigCycleTime", "GenSigStartValue", "SystemSignalLongSymbol
 CARRIER_ECU = {"SystemNodeLongSymbol"}
 CARRIER_GLOBAL = {"BusType", "ProtocolType"}
 ENUM_VALUES = ["Off", "On", "Auto", "Err_1"]
+NUMERIC_ENUM_VALUES = ["1", "2", "3"]
+
+
+def enum_values_of(definition):
+    return [v.strip().strip('"') for v in definition[5:].split(",")]
 
 
 def ident(rng, base, long_p=0.15):
@@ -44,7 +49,11 @@ def gen_defines(rng, level):
         elif k == "STRING":
             out.append([name, "STRING", rng.choice([None, "", "dflt", "two words"])])
         else:
-            out.append([name, "ENUM " + ",".join('"%s"' % v for v in ENUM_VALUES), rng.choice([None, "Off", "Auto"])])
+            if rng.random() < 0.25:
+                # value names that look like numbers (the file stores the index of the value, not its name)
+                out.append([name, "ENUM " + ",".join('"%s"' % v for v in NUMERIC_ENUM_VALUES), rng.choice([None, "1", "3"])])
+            else:
+                out.append([name, "ENUM " + ",".join('"%s"' % v for v in ENUM_VALUES), rng.choice([None, "Off", "Auto"])])
     return out
 
 
@@ -65,7 +74,7 @@ def gen_attr_values(rng, defines, texts, p=0.5):
         elif k == "STRING":
             out[name] = rng.choice(["abc", "", "x y", "with, comma", 'in"ner', "semi; colon", " lead", "trail "] + texts[:3])
         else:
-            out[name] = rng.choice(ENUM_VALUES)
+            out[name] = rng.choice(enum_values_of(definition))
     return out
 
 
@@ -221,6 +230,11 @@ def gen_desc(rng, opts=None):
     if o["fd"] and o["j1939"] and not o.get("fd_and_j1939", True):
         o["j1939"] = False
     defines = {lvl: gen_defines(rng, lvl) if rng.random() < 0.6 else [] for lvl in ("frame", "signal", "ecu", "global")}
+    if rng.random() < 0.2:
+        # one attribute name on two levels (a DBC file has one default per name: both get the same)
+        shared_default = rng.choice(["", "note", "7"])
+        for lvl in rng.sample(["frame", "signal", "ecu", "global"], 2):
+            defines[lvl] = defines[lvl] + [["Remark", "STRING", shared_default]]
     if rng.random() < 0.25:
         # a matrix that brings the carrier definitions along, as every matrix read from a Vector DBC does
         defines["frame"] = defines["frame"] + [["GenMsgCycleTime", "INT 0 65535", rng.choice([None, "0", "100"])]]
